@@ -469,7 +469,22 @@ impl CatLens {
             }
         }
         let _: Option<IggyError> = None;
-        Ok(json!({"S": s_out, "T": t_out, "G": g_out, "Cnt": cnt_out, "U": u_out, "Mem": mem_out,
+        // C19: with encryption on no journalled command content (names) may appear in clear in the state log
+        let mut journal_hits = 0u64;
+        if run.scn.cfg.encryption {
+            let mut needles: Vec<Vec<u8>> = vec![];
+            for st in &run.scn.steps {
+                if let Some(n) = st["name"].as_str() {
+                    if n.len() >= 5 {
+                        needles.push(n.as_bytes().to_vec());
+                    }
+                }
+            }
+            needles.sort();
+            needles.dedup();
+            journal_hits = crate::util::scan_files_for(&format!("{}/state", run.dir), &needles);
+        }
+        Ok(json!({"journal_hits": journal_hits, "S": s_out, "T": t_out, "G": g_out, "Cnt": cnt_out, "U": u_out, "Mem": mem_out,
                   "dS": d_s, "dT": d_t, "dP": d_p, "incons": incons}))
     }
 }
